@@ -202,6 +202,19 @@ def run_evaluate(ctx: Ctx) -> None:
                 tr = it.call(fE, c, stride=st_x if D > 1 else st_x[0], shape=tuple(nout), transpose=True)
                 if not teq(tr, want):
                     return False, "transposed-convolution algorithm disagrees with the analytic evaluation"
+            else:
+                # derivatives with the default kernels of the transposed algorithm are documented as not implemented: the call either
+                # refuses (NotImplementedError) or returns that derivative — never the values of another derivative order
+                for dform in ((dv_x if D > 1 else dv_x[0]), list(dv_x)):
+                    try:
+                        trd = it.call(fE, c, stride=st_x if D > 1 else st_x[0], shape=tuple(nout), derivative=dform, transpose=True)
+                    except InterpError as e:
+                        if e.exc_type == "NotImplementedError":
+                            continue
+                        raise
+                    if tuple(trd.shape) != tuple(want.shape) or not teq(trd, want):
+                        return False, (f"transpose=True with derivative={dform} and the default kernels is accepted and returns something else than "
+                                       f"that derivative (documented: not implemented, must be refused)")
             # the transposed algorithm with explicitly supplied 1-D kernels (documented form) for every derivative order
             if all(v <= 2 for v in deriv):  # (cubic_bspline1d tabulates the basis and its first two derivatives)
                 fK = prog.func("deepali.core.kernels", "cubic_bspline1d")
